@@ -288,8 +288,16 @@ func (x *Exec) assignsEffects(ct *Contract, eff *Effects, fn *ssa.Function) {
 		for i := 0; i < sig.Params().Len(); i++ {
 			reachKeys(sig.Params().At(i).Type(), eff, seen)
 		}
-		for _, g := range x.e.cs.Ghosts[ct.PkgPath] {
-			_ = g
+		// ghosts the postconditions speak about are part of the default frame
+		for _, cl := range ct.Ens {
+			ast.Inspect(cl.Expr, func(n ast.Node) bool {
+				if se, ok := n.(*ast.SelectorExpr); ok {
+					if id, ok := se.X.(*ast.Ident); ok && id.Name == "ghost" {
+						eff.Ghosts[se.Sel.Name] = true
+					}
+				}
+				return true
+			})
 		}
 		return
 	}
@@ -936,8 +944,18 @@ func (x *Exec) applyContract(ct *Contract, f *ssa.Function, sig *types.Signature
 			x.assume(Imp(reach, g))
 		}
 	}
+	if wantSiteCovers && x.specDepth == 0 {
+		n := fmt.Sprintf("%s#cover[after %s @%s #%d]", x.fname(), ct.Name, where, len(x.siteCovers))
+		x.siteCovers = append(x.siteCovers, &Oblig{Name: n, Kind: "cover", Ctx: x.c, Func: x.top.String(),
+			Text:  "the continuation of this contract application is reachable (its requires and ensures are not contradictory here)",
+			Parts: []OblPart{{NegGoal: reach, NAssume: len(x.c.Assumes)}}})
+	}
 	return res
 }
+
+// wantSiteCovers: also check, per contract application, that the path goes on
+// (thorough tier / GOVC_SITE_COVERS=1). Diagnostic: reported, not fatal.
+var wantSiteCovers = false
 
 // inScope: a clause tagged `@in:name` applies only when the function under
 // verification has a parameter of that name (environment contracts written
